@@ -81,6 +81,24 @@ pub struct BuildCfg {
     /// seeded random interleaving of all builder calls (see `call_sequence`)
     #[serde(default)]
     pub call_order_seed: Option<u64>,
+    /// how instants (source date, changelog times) are handed to the builder: 0 as u32 seconds,
+    /// 1..=3 as chrono::DateTime with the fixed offsets +05:30 / -08:00 / +14:00, 4 as SystemTime
+    #[serde(default)]
+    pub time_form: u8,
+}
+
+/// the instant `secs` in the form selected by `form` (see BuildCfg::time_form)
+pub fn instant(form: u8, secs: u32) -> rpm::Timestamp {
+    use chrono::TimeZone;
+    let off = |s: i32| chrono::FixedOffset::east_opt(s).unwrap().timestamp_opt(secs as i64, 0).single().unwrap();
+    match form {
+        1 => rpm::Timestamp::try_from(off(19_800)),
+        2 => rpm::Timestamp::try_from(off(-28_800)),
+        3 => rpm::Timestamp::try_from(off(50_400)),
+        4 => rpm::Timestamp::try_from(std::time::UNIX_EPOCH + std::time::Duration::from_secs(secs as u64)),
+        _ => Ok(rpm::Timestamp::from(secs)),
+    }
+    .unwrap_or(rpm::Timestamp::from(secs))
 }
 
 pub fn file_content(f: &FileCfg) -> Vec<u8> {
@@ -333,7 +351,7 @@ pub fn builder_for(cfg: &BuildCfg, sources: &[PathBuf]) -> Result<PackageBuilder
             }
             Call::Changelog(i) => {
                 let (n, t, ts) = &cfg.changelog[i];
-                b.add_changelog_entry(n, t, *ts)
+                b.add_changelog_entry(n, t, instant(cfg.time_form, *ts))
             }
         };
     }
@@ -383,7 +401,7 @@ fn scalar_setter(cfg: &BuildCfg, b: PackageBuilder, i: usize) -> PackageBuilder 
             None => b,
         },
         10 => match cfg.source_date {
-            Some(t) => b.source_date(t),
+            Some(t) => b.source_date(instant(cfg.time_form, t)),
             None => b,
         },
         _ => match compression_of(cfg) {
@@ -493,6 +511,7 @@ pub fn rand_dest(r: &mut Rng, used: &mut std::collections::BTreeSet<String>, idx
             1 => format!("file {idx}.txt"),
             2 => format!("{}-{idx}", "n".repeat(1 + r.usize(40))),
             3 => format!("ü{idx}.conf"),
+            4 if r.chance(1, 2) => format!(".hidden{idx}"),
             _ => format!("{}{idx}", COMPONENTS[r.usize(COMPONENTS.len())]),
         });
         let path = format!("/{}", comps.join("/"));
@@ -616,6 +635,7 @@ pub fn gen_cfg(r: &mut Rng, o: &GenOpts) -> BuildCfg {
         }
     }
     cfg.late_setters = r.chance(1, 3);
+    cfg.time_form = if r.chance(1, 3) { 1 + r.below(4) as u8 } else { 0 };
     cfg.call_order_seed = if r.chance(1, 3) { Some(r.next()) } else { None };
     let ncl = r.usize(4);
     for i in 0..ncl {
